@@ -98,6 +98,7 @@ inductive Err
   | listConv   -- "Failed to convert list slice <name>"
   | itemConv   -- "Failed to convert list slice <idx>"
   | panic      -- index/slice out of range, assignment to entry in nil map
+  | malformed  -- "malformed list element …" / "malformed list key …" (bounds checks before the slices)
   | fuel       -- never produced with the fuel `buildTree` supplies
 deriving DecidableEq, Repr, Inhabited
 
@@ -148,7 +149,7 @@ def joinSlash : List Str → Str
   | x :: y :: r => x ++ '/' :: joinSlash (y :: r)
 
 /-- the `for strings.Contains(keyString, "=")` loop: key names and values are cut out of the text
-    at the first `[`, `=`, `]`; a slice expression with bad bounds panics.  Every iteration drops
+    at the first `[`, `=`, `]`; bad bounds are refused with an error before the slice expressions (fix 33068de).  Every iteration drops
     at least two characters, so `fuel = len(keyString)` is never exhausted. -/
 def keyLoop : Nat → Str → List (Str × Str) → Except Err (List (Str × Str))
   | 0, _, acc => .ok acc
@@ -160,10 +161,10 @@ def keyLoop : Nat → Str → List (Str × Str) → Except Err (List (Str × Str
         | none => 0          -- brktIdx = -1, brktIdx+1 = 0
         | some b => b + 1
       match indexOf ']' 0 ks with
-      | none => .error .panic                 -- keyString[eqIdx+1 : -1]
+      | none => .error .malformed             -- eqIdx+1 > brktIdx2 = -1
       | some b2 =>
-        if eq < b1 then .error .panic         -- keyString[brktIdx+1 : eqIdx]
-        else if b2 < eq + 1 then .error .panic
+        if eq < b1 then .error .malformed     -- brktIdx+1 > eqIdx
+        else if b2 < eq + 1 then .error .malformed
         else keyLoop fuel (ks.drop (b2 + 1))
                (Path.mapInsert ((ks.take eq).drop b1) ((ks.take b2).drop (eq + 1)) acc)
 
@@ -262,7 +263,7 @@ def addPath (rfc : Bool) (ord : List (Str × Str) → List (Str × Str)) :
           if refine.isEmpty then .ok node
           else
             match indexOf '[' 0 e0 with
-            | none => .error .panic                  -- pathelems[0][:-1]
+            | none => .error .malformed              -- brktIdx < 0
             | some b =>
               let listName := e0.take b
               match keyLoop e0.length (e0.drop b) [] with
